@@ -44,11 +44,12 @@ KernelV(c) ==
        [] OTHER -> <<"ok", IF a * 4 * c.cx[1] * c.r[2] # c.r[1] * 4 * c.cx[2] THEN "nonintegral" ELSE "">>
 
 \* ---------------------------------------------------------------- calc_cellsize
-\* unit table of the library (convolution.UNITS), metres per unit
+\* the published unit list (error message of _get_distance; calc_cellsize's docstring: "Supported units are:
+\* meter, kelometer, foot, and mile"), metres per unit
 Factor(u) == CASE u \in {"", "meter", "meters", "m"} -> <<1, 1>>
                [] u \in {"kilometer", "kilometers", "km"} -> <<1000, 1>>
                [] u \in {"foot", "feet", "ft"} -> <<381, 1250>>
-               [] u \in {"miles", "mls", "ml"} -> <<201168, 125>>
+               [] u \in {"mile", "miles", "mls", "ml"} -> <<201168, 125>>
 
 SeqMax(s) == CHOOSE x \in {s[i] : i \in 1..Len(s)} : \A i \in 1..Len(s) : s[i] <= x
 SeqMin(s) == CHOOSE x \in {s[i] : i \in 1..Len(s)} : \A i \in 1..Len(s) : s[i] >= x
